@@ -48,10 +48,48 @@ def curve_series(curve):
     d = {"k_1": float(curve["k_1"]), "ND": float(curve["ND"]), "SD": float(curve["SD"])}
     if curve["k_2"] != "absent":
         d["k_2"] = k2_of(curve)
-    for k in ("TN", "TS"):
+    for k in ("TN", "TS", "failure_probability"):
         if k in curve:
             d[k] = float(curve[k])
     return pd.Series(d)
+
+
+def scatter_of(curve):
+    """(TN, TS, pf) as `_validate` fills them in."""
+    k1 = float(curve["k_1"])
+    tn, ts = curve.get("TN"), curve.get("TS")
+    if tn is None and ts is None:
+        tn, ts = 1.0, 1.0
+    elif ts is None:
+        ts = float(tn) ** (1.0 / k1)
+    elif tn is None:
+        tn = float(ts) ** k1
+    return float(tn), float(ts), float(curve.get("failure_probability", 0.5))
+
+
+def shifted(curve):
+    """True when the 50 % curve differs from the native one."""
+    tn, ts, pf = scatter_of(curve)
+    return pf != 0.5 and (tn != 1.0 or ts != 1.0)
+
+
+def sd50(curve):
+    """Knee of the 50 % curve by the textbook formula SD_50 = SD * TS**(z_50 - z_pf)/(z_90 - z_10)
+    (independent of woehlercurve.py; used for statistics and for classifying failures only)."""
+    from scipy.stats import norm
+    tn, ts, pf = scatter_of(curve)
+    if pf == 0.5 or ts == 1.0:
+        return float(curve["SD"])
+    return float(curve["SD"]) * ts ** ((norm.ppf(0.5) - norm.ppf(pf)) / (norm.ppf(0.9) - norm.ppf(0.1)))
+
+
+def curve_tokens(curve):
+    """The 7 tokens `k_1 k_2 SD ND TN TS failure_probability` of the driver protocol (`-` = key missing)."""
+    k2 = math.inf if curve["k_2"] in ("absent", "inf") else float(curve["k_2"])
+    toks = [f2h(curve["k_1"]), f2h(k2), f2h(curve["SD"]), f2h(curve["ND"])]
+    for k in ("TN", "TS", "failure_probability"):
+        toks.append(f2h(curve[k]) if k in curve else "-")
+    return " ".join(toks)
 
 
 def ref_amplitudes(case, members=None):
@@ -248,10 +286,17 @@ def gen_curve(rng, amps, counts):
     if rng.random() < 0.25:
         label, sd = "free", dy(rng, 20, 1500)
     c = {"k_1": k1, "k_2": k2, "SD": sd, "ND": rng.choice(NDS)}
-    if rng.random() < 0.2:
-        c["TN"] = rng.choice([1.0, 4.0, 12.5])
-        if rng.random() < 0.5:
-            c["TS"] = rng.choice([1.0, 1.25])
+    r = rng.random()
+    if r < 0.5:          # scatter and a native failure probability: the code then works on the curve shifted to 50 %
+        which = rng.choice(["TN", "TN", "TS", "both", "both", "both"])
+        if which in ("TN", "both"):
+            c["TN"] = rng.choice([1.0, 3.0, 4.0, 12.5, 2.5])
+        if which in ("TS", "both"):
+            c["TS"] = rng.choice([1.0, 1.0, 1.25, 1.5, 2.0, 1.1])
+        if rng.random() < 0.85:
+            c["failure_probability"] = rng.choice([0.1, 0.1, 0.9, 0.9, 0.025, 0.5, 0.975, 0.3])
+    elif r < 0.6:
+        c["failure_probability"] = rng.choice([0.1, 0.9, 0.5])     # no scatter: the shift is the identity
     return c, label, mode
 
 
@@ -294,8 +339,10 @@ def exhaustive_cases(tier):
             for label, sd in sd_positions(amps, [1] * m) + [("in-empty-top", None)]:
                 if sd is None:
                     continue
-                for k1, k2 in ((5.0, "inf"), (5.0, 9.0), (3.0, 3.0)):
-                    yield dict(base, counts=counts, curve={"k_1": k1, "k_2": k2, "SD": sd, "ND": 1e6},
+                for k1, k2, extra in ((5.0, "inf", {}), (5.0, 9.0, {}), (3.0, 3.0, {}),
+                                      (5.0, "inf", {"TN": 4.0, "failure_probability": 0.1}),
+                                      (4.0, 7.0, {"TN": 3.0, "TS": 1.25, "failure_probability": 0.9})):
+                    yield dict(base, counts=counts, curve=dict({"k_1": k1, "k_2": k2, "SD": sd, "ND": 1e6}, **extra),
                                cut=m // 2, t=2.0, perm=list(reversed(range(m))),
                                tags={"shape": "exh", "pattern": "".join(map(str, occ)), "sd": label, "k2": str(k2)})
 
@@ -332,12 +379,16 @@ class C11(Prop):
         "PylifeVerif.C11.gassner_haibach_damage_one",
         "PylifeVerif.C11.gassner_curve_cycles",
         "PylifeVerif.C11.gassner_damage_one_at_any_level",
+        "PylifeVerif.C11.damage_linear_native",
+        "PylifeVerif.C11.damage_order_native",
+        "PylifeVerif.C11.gassner_damage_one_native",
+        "PylifeVerif.C11.gassner_curve_cycles_native",
         "PylifeVerif.C11.effective_damage_sum_bounds",
         "PylifeVerif.C11.gassner_unrepaired_fails_empty_top_class",
         "PylifeVerif.C11.gassner_unrepaired_infinite_below_SD",
     ]
     PARTIAL = {}
-    RULE = ("case = (Woehler curve k_1/k_2/SD/ND, collective given as range / range-mean / from-to histogram with "
+    RULE = ("case = (Woehler curve k_1/k_2/SD/ND with optional TN/TS/failure_probability, collective given as range / range-mean / from-to histogram with "
             "IntervalIndex class limits or as LoadCollective data frame, cycle counts with empty classes, load scale, "
             "class location, split point, count factor, permutation); all numbers dyadic so that class amplitudes are "
             "exact; SD placed below / at / between / above the class amplitudes and inside an empty top class; "
@@ -347,15 +398,16 @@ class C11(Prop):
             "degenerate, at least two occupied classes and (an empty class or classes on both sides of SD)")
     ASSUMPTIONS = [
         "C11: the collective is observed through its accessors `amplitude` and `cycles` (LoadHistogram, LoadCollective); the model works on the list of (amplitude, cycles) pairs, the harness derives the amplitudes from the class limits independently and the oracle compares them with the accessor",
-        "C11: curves at their native failure probability 0.5 (transform_to_failure_probability is the identity there; C08 covers the transformation); scalar curve (one parameter set), one collective",
+        "C11: curves with native failure_probability in {0.025, 0.1, 0.3, 0.5, 0.9, 0.975} and scatter TN/TS (both, one, none given): damage, cycles and gassner_cycles evaluate the curve shifted to 50 % - the model imports Model/Woehler.lean `transform` (C08) for it, scipy.stats.norm.ppf is a parameter `ppf` in the theorems and a series implementation in the driver (tolerance 1e-10 on shifted curves); scalar curve (one parameter set), one collective",
         "C11: theorems over the reals with x/0 = 0 and 0^(-k) = 0; the guards ValidCurve (SD, ND > 0), ValidColl (amplitudes, counts >= 0) and Loaded (some occupied class with positive amplitude) are exactly the inputs on which the real code does not return NaN/inf; pandas/numpy summation order and np.power rounding are not modelled (tolerance)",
-        "C11: the model is the REPAIRED Miner code (tools/fixes/C11-gassner-max-occupied.diff); on a tree without the repair the oracle reports the finding classes gassner-*-empty-top-class / gassner-*-below-SD",
+        "C11: the model is the REPAIRED Miner code (tools/fixes/C11-gassner-max-occupied.diff, tools/fixes/C11-haibach-knee-at-50pct.diff); on a tree without the repair the oracle reports the finding classes gassner-*-empty-top-class / gassner-*-below-SD / gassner-haibach-native-knee",
     ]
 
     def __init__(self):
         self.stats = {"by_kind": {}, "by_pattern": {}, "by_sd_position": {}, "by_k2": {}, "by_shape": {},
                       "degenerate": 0, "sizes": {}, "empty_top": 0, "all_below_SD": 0, "all_above_SD": 0,
-                      "straddle_SD": 0, "amplitude_exactly_SD": 0, "scaled": 0}
+                      "straddle_SD": 0, "amplitude_exactly_SD": 0, "scaled": 0, "by_failure_probability": {},
+                      "curve_shifted_to_50pct": 0, "knee_shifted_to_50pct": 0, "only_TN_given": 0}
         self.exhaustive = False
         self._verdicts = {}
 
@@ -363,10 +415,10 @@ class C11(Prop):
     def generate(self, rng, tier):
         self.exhaustive = True
         self.stats["exhaustive_scope"] = ("regular range histogram with 1..%d classes: every occupancy pattern x SD below all / at "
-                                          "each class / between classes / above all x (k_1,k_2) in {(5,inf),(5,9),(3,3)}" % (4 if tier == "quick" else 6))
+                                          "each class / between classes / above all x (k_1,k_2) in {(5,inf),(5,9),(3,3)} and the curves (5,inf,TN=4,pf=0.1), (4,7,TN=3,TS=1.25,pf=0.9)" % (4 if tier == "quick" else 6))
         for c in exhaustive_cases(tier):
             yield c
-        n = 1500 if tier == "quick" else 10000
+        n = 1000 if tier == "quick" else 10000
         for _ in range(n):
             yield random_case(rng, tier)
 
@@ -378,7 +430,15 @@ class C11(Prop):
                          ("by_shape", tags.get("shape", "?")), ("sizes", str(len(amps)))):
             s[key][tag] = s[key].get(tag, 0) + 1
         occ = [a for a, n in zip(amps, counts) if n > 0]
-        sd = float(case["curve"]["SD"])
+        sd = sd50(case["curve"])
+        tn, ts, pf = scatter_of(case["curve"])
+        s["by_failure_probability"][str(pf)] = s["by_failure_probability"].get(str(pf), 0) + 1
+        if shifted(case["curve"]):
+            s["curve_shifted_to_50pct"] += 1
+            if ts != 1.0:
+                s["knee_shifted_to_50pct"] += 1
+            if "TS" not in case["curve"]:
+                s["only_TN_given"] += 1
         if degenerate(amps, counts):
             s["degenerate"] += 1
             return
@@ -400,7 +460,7 @@ class C11(Prop):
         c = case["curve"]
         amps = ref_amplitudes(case)
         counts = eff_counts(case)
-        head = " ".join(f2h(x) for x in (c["k_1"], k2_of(c) if c["k_2"] != "absent" else math.inf, c["SD"], c["ND"]))
+        head = curve_tokens(c)
         body = " ".join(f"{f2h(a)} {f2h(n)}" for a, n in zip(amps, counts))
         return [f"mn_damage {head} {body}", f"mn_miner {head} {body}",
                 f"mn_flf {f2h(c['k_1'])} {f2h(c['ND'])} {f2h(sum(counts) + 1.0)}"]
@@ -501,7 +561,7 @@ class C11(Prop):
                     fx, fy = h2f(x), h2f(y)
                 except Exception:
                     return f"{names[i]}[{j}]: model={x!r} impl={y!r}"
-                if not core.close(fx, fy, rtol=1e-11, atol=1e-300):
+                if not core.close(fx, fy, rtol=1e-10 if shifted(case["curve"]) else 1e-11, atol=1e-300):
                     return f"{names[i]}[{j}]: model={fx!r} impl={fy!r}"
         return None
 
@@ -511,7 +571,7 @@ class C11(Prop):
         amps = ref_amplitudes(case)
         counts = eff_counts(case)
         occ = [a for a, n in zip(amps, counts) if n > 0]
-        sd = float(case["curve"]["SD"])
+        sd = sd50(case["curve"])
         if len(occ) < 2:
             return None
         if len(occ) == len(amps) and not (min(occ) < sd <= max(occ)):
@@ -527,7 +587,8 @@ class C11(Prop):
         m = len(members)
         amps = ref_amplitudes(case)
         k1 = float(case["curve"]["k_1"])
-        sd = float(case["curve"]["SD"])
+        sd = sd50(case["curve"])
+        tn, ts, pf = scatter_of(case["curve"])
         with warnings.catch_warnings():
             warnings.simplefilter("ignore")
             lc = build(case)
@@ -580,6 +641,10 @@ class C11(Prop):
             tot = sum(counts)
 
             def klass(rule):
+                if shifted(case["curve"]):      # the 50 % curve differs from the native one
+                    if rule == "haibach" and ts != 1.0:
+                        return "gassner-haibach-native-knee"
+                    return f"gassner-{rule}-native-probability"
                 if mocc < max(amps):
                     return f"gassner-{rule}-empty-top-class"
                 if mocc < sd:
@@ -597,7 +662,7 @@ class C11(Prop):
                 Dg = float(variant.damage(applied).sum())
                 if not abs(Dg - 1.0) <= GASSNER_TOL:
                     bad.append((f"Miner-{rule}: applying the collective for its Gassner cycles {NG} gives damage {Dg}, not 1 "
-                                f"(amplitudes {amps}, counts {counts}, SD {sd}, k_1 {k1})", klass(rule)))
+                                f"(amplitudes {amps}, counts {counts}, curve {case['curve']}, knee of the 50 % curve {sd})", klass(rule)))
             if bad:
                 return ("; ".join(b[0] for b in bad), bad[0][1])
             for rule, mn in (("elementary", me), ("haibach", mh)):
@@ -611,6 +676,7 @@ class C11(Prop):
             Ng = fnum(g.cycles(mocc))
             if not core.close(Ng, NGe, rtol=1e-10):
                 return (f"Gassner-shifted curve gives {Ng} cycles at the largest occupied amplitude {mocc}, gassner_cycles gives {NGe}",
+                        "gassner-elementary-native-probability" if shifted(case["curve"]) else
                         "gassner-elementary-below-SD" if mocc < sd else "gassner-curve")
             dg = float(g.damage(pd.Series({"amplitude": mocc, "cycles": Ng})).sum())
             if not abs(dg - 1.0) <= GASSNER_TOL:
